@@ -82,7 +82,12 @@ pub fn run_alloc(tr: &mut Trace, run: u64, seed: u64) {
                     let len = match r.below(6) {
                         0 => r.range(1449, 1448 * 6) as usize,        // multi-fragment, not a multiple
                         1 => 1448 * r.range(1, 4) as usize,           // exact multiples
-                        2 => 1448 * r.range(1, 4) as usize + 1,
+                        2 => {
+                            // just below and just above whole fragments (allocator size classes: 1..64 bytes either side)
+                            let d = *r.pick(&[1usize, 2, 7, 8, 9, 15, 16, 17, 31, 32, 33, 63, 64, 65]);
+                            let k = r.range(1, 5) as usize;
+                            if r.chance(1, 2) { 1448 * k + d } else { 1448 * (k + 1) - d }
+                        }
                         3 => 0,
                         _ => r.range(1, 1448) as usize,
                     }.min(p.cfg.rx_alloc[1 - e]);
@@ -139,7 +144,7 @@ pub fn run_alloc(tr: &mut Trace, run: u64, seed: u64) {
             }
             for i in 0..n {
                 if round > 3 && r.chance(40, 100) {
-                    let len = *r.pick(&[10usize, 1449, 4000, 7001, 1448 * 3]);
+                    let len = *r.pick(&[10usize, 1449, 4000, 7001, 1448 * 3, 1448 * 2 - 1, 1448 * 3 - 8, 1448 * 2 - 15, 1448 * 4 - 16, 1448 * 2 - 33]);
                     s.app_send(&mut null, r.chance(1, 2), i, r.below(3) as usize, *r.pick(&[SendMode::Unreliable, SendMode::Reliable, SendMode::Persistent]), len);
                 }
                 if r.chance(1, 80) {
